@@ -10,8 +10,9 @@ cd $WT
 res_apply=ok
 git apply $SRC/patch.diff 2>$OUT.apply.err || { git apply --3way $SRC/patch.diff 2>>$OUT.apply.err || res_apply=FAILED; }
 demo_with=NA; demo_without=NA; tests=NA
+sed "s#/tmp/mut/$P#$WT#g" $SRC/demo.py > $OUT.demo.py   # demos may assert the sub-agent's own worktree path
 if [ $res_apply = ok ]; then
-  timeout 1800 /venv/bin/python $SRC/demo.py > $OUT.demo_with.log 2>&1; demo_with=$?
+  timeout 1800 /venv/bin/python $OUT.demo.py > $OUT.demo_with.log 2>&1; demo_with=$?
   if [ $MODE = full ]; then
     timeout 5400 /venv/bin/python -m pytest -q -p no:cacheprovider --timeout=900 --continue-on-collection-errors --junitxml=$OUT.junit.xml > $OUT.tests.log 2>&1
   else
@@ -20,7 +21,7 @@ if [ $res_apply = ok ]; then
   tests=$(tail -1 $OUT.tests.log)
   git diff > $OUT.applied.diff
   git checkout -q -- . ; git clean -fdq
-  timeout 1800 /venv/bin/python $SRC/demo.py > $OUT.demo_without.log 2>&1; demo_without=$?
+  timeout 1800 /venv/bin/python $OUT.demo.py > $OUT.demo_without.log 2>&1; demo_without=$?
 fi
 cd /; git -C /repo worktree remove --force $WT
 /venv/bin/python - <<PY
